@@ -37,3 +37,15 @@ Theorem C16_rangeless_kept : forall o orc f rd ext,
   In d (lint_inner o orc f rd ext).
 Proof. exact rangeless_kept. Qed.
 Print Assumptions C16_rangeless_kept.
+
+From V Require Import Pipeline.Accounting Pipeline.WellFormed Pipeline.AccountingFinal.
+(* the rule codes an external linter declares count as known and as enabled for directive accounting: a directive
+   naming such a code is never reported as unknown and is reported as unused exactly when it suppressed nothing *)
+Theorem C16_external_code_accounting : forall o orc f raw ec k d c,
+  oracle_ok orc -> wf_file f -> file_word o <> line_word o ->
+  let fd := find_file_dir (file_word o) (f_leading f) in
+  In (k, d) (c_dirs o orc f fd) -> In c (dir_codes d) -> In c ec ->
+  n_unknown o orc f fd raw ec k d c = 0%nat /\
+  n_unused o orc f fd raw ec k d c = (if negb (used o orc f fd raw ec k c) && negb (unused_switch fd) then 1%nat else 0%nat).
+Proof. exact external_code_accounting. Qed.
+Print Assumptions C16_external_code_accounting.
